@@ -54,6 +54,10 @@ Judge(e) ==
     [] n = "EqObs"            -> LET r == SameFunction3(AsC(e.c), AsC(e.b)) IN
                                  Fails({<<"eq_iff_same_function", (r = "yes" => e.act.eq) /\ (r = "no" => ~e.act.eq)>>,
                                         <<"?eq_unknown", r # "unknown">>})
+    [] n = "ElevObs"          -> Fails({<<"result_consistent", ConsistentCurve(AsC(e.d))>>,
+                                     <<"each_knot_mult_plus_t", e.d.U = SetDegreeKV(e.c.U, Deg(e.c.U) + e.act.times).kv>>,
+                                     <<"same_function", ConsistentCurve(AsC(e.d)) =>
+                                         ObservedEquals(AsC(e.c), e.dv, CommonBreaks(e.c.U, e.d.U), Deg(e.c.U) + Deg(e.d.U))>>})
     [] n = "DriverError"      -> {"operation_raised_unexpectedly"}
     [] n = "CvFitCurve"       -> FitCurveClauses(AsC(e.c), e.act.kv, e.act.nodes, AsC(e.d), e.act.err)
     [] n = "CvFitCurve2"      -> FitCurve2Clauses(AsC(e.c), AsC(e.b), e.act.kv, e.act.nodes, AsC(e.d), AsC(e.act.d2), e.act.err)
